@@ -183,10 +183,17 @@ func run(c *wk.Case) {
 	t := c.T
 	// ---- PostScript name
 	{
-		f := &sfnt.Font{FamilyName: famPool[t.Draw(len(famPool))], Width: os2.Width(t.Range(0, 9)),
+		width := os2.Width(t.Range(0, 9))
+		if t.Chance(1, 4) {
+			width = os2.Width(t.Draw(1 << 16)) // any value of the field: Read passes usWidthClass through
+		}
+		f := &sfnt.Font{FamilyName: famPool[t.Draw(len(famPool))], Width: width,
 			Weight: os2.Weight(t.Range(0, 10) * 100), IsBold: t.Chance(1, 2), IsItalic: t.Chance(1, 2), IsOblique: t.Chance(1, 4)}
 		if t.Chance(1, 3) {
 			f.FamilyName += string(rune(t.Range(1, 300)))
+		}
+		if t.Chance(1, 4) {
+			f.Weight = os2.Weight(t.Draw(1 << 16))
 		}
 		var ps string
 		c.MustNotPanic("PostScriptName", func() { ps = f.PostScriptName() })
@@ -232,8 +239,21 @@ func run(c *wk.Case) {
 		}
 		f.Outlines = o
 	default:
-		f.Outlines = simgen.GenCFF(t, n, true)
+		o := simgen.GenCFF(t, n, true)
 		pattern = 3
+		if t.Chance(1, 2) {
+			// a CID-keyed font that still carries some glyph names (as after
+			// MakeCIDKeyed on a copy, or a hand-built font): MakeSimple must
+			// keep the valid unique ones
+			pool := []string{"A", "B", "f_i", "eacute", "zzz", "A", "afii10024", "x.alt"}
+			for i := 1; i < n; i++ {
+				if t.Chance(1, 3) {
+					o.Glyphs[i].Name = pool[t.Draw(len(pool))]
+				}
+			}
+			pattern = 2
+		}
+		f.Outlines = o
 	}
 	simgen.GenMeta(t, f)
 	simgen.GenCMap(t, f)
@@ -323,6 +343,12 @@ func run(c *wk.Case) {
 			}
 		}
 		var refSimple []string
+		effCID := append([]string(nil), orig...)
+		effCID[0] = ".notdef"
+		cntCID := map[string]int{}
+		for _, nm := range effCID {
+			cntCID[nm]++
+		}
 		for i, ord := range orders[:3] {
 			g3 := cloneForMutation(f)
 			o := g3.Outlines.(*cff.Outlines)
@@ -337,6 +363,11 @@ func run(c *wk.Case) {
 				names = append(names, gl.Name)
 			}
 			checkNameSet(c, "MakeSimple", names, n)
+			for g, nm := range effCID {
+				if nm != "" && cntCID[nm] == 1 && names[g] != nm {
+					c.Fail("names-existing-lost", "MakeSimple", "glyph %d had the unique name %q, after MakeSimple (glyph text %v) it is called %q", g, nm, text, names[g])
+				}
+			}
 			if o.IsCIDKeyed() {
 				c.Fail("make-simple", "MakeSimple", "font is still CID-keyed after MakeSimple")
 			}
